@@ -14,7 +14,8 @@ PROPS = {
     'C03': {'units': ['opt'], 'kani': K_ANALYSIS},
     'C19': {'units': ['run19'], 'kani': K_CONTEXT},
     'C20': {'units': ['gad'], 'kani': []},
-    'C05': {'units': ['chal'], 'kani': []},
+    'C05': {'units': ['chal'], 'kani': [], 'exclude': r'canonical_width'},
+    'C12': {'units': ['bits', 'chal'], 'kani': [], 'only': {'chal': r'canonical_width'}},
     'C15': {'units': ['shape'], 'kani': []},
 }
 
@@ -89,8 +90,19 @@ META['C15'] = {
             'Assumed: 64-bit usize, log_arities entries originate from a u8, realistic proof sizes (< 2^32 phases, extension degree < 2^16). Error message strings dropped.',
 }
 
+META['C12'] = {
+    'technique': 'Verus contracts on extracted real decomposition gadgets + an integer-arithmetic uniqueness lemma + a call-site obligation',
+    'text': 'Deductive proof over an abstract field that reconstruct_index_from_bits / decompose_to_bits make every bit target boolean and tie the weighted sum to the decomposed value '
+            'whenever the asserted constraints hold (for every bit width, chunking and extension degree), and — over the integers — that a boolean n-bit vector congruent to x mod P '
+            'with 2^n <= P is the binary expansion of x (lemma_canonical_unique, lemma_bits_injective). The proviso 2^n <= P is a precondition (canonical_width) that each caller must '
+            'establish; the call in CircuitChallenger::sample_bits does not (finding C12-noncanonical-bits), every other obligation is discharged.',
+    'note': 'Covers the bit half of C12. NOT covered: coefficient decompositions (decompose_ext_to_base_coeffs / recompose): that every coefficient is a base-field element is not under contract. '
+            'Assumed: builder arithmetic/assert contracts; e_i*2^j constant abstracted to basis_pow2(i,j); the link between weighted_sum over the field and bits_value over the integers '
+            '(characteristic P, embedding of base elements) is an informal step; 64-bit usize.',
+}
+
 NOT_APPLICABLE = {
     'C01': 'whole-verifier equivalence with the external native verifier (p3-uni-stark / p3-batch-stark): needs a relational spec of ~1.5 kLoC of dependency code across four generic traits; no per-function contract within reach expresses it. Its parts are decided under C05/C07/C08/C13/C14/C15/C20.',
 }
-for _p in ['C04', 'C06', 'C07', 'C08', 'C09', 'C10', 'C11', 'C12', 'C13', 'C14', 'C16', 'C17', 'C18']:
+for _p in ['C04', 'C06', 'C07', 'C08', 'C09', 'C10', 'C11', 'C13', 'C14', 'C16', 'C17', 'C18']:
     NOT_APPLICABLE.setdefault(_p, 'not reached yet: kernel designed in DESIGN.md §5 but its contracts are not built; not claimed')
